@@ -22,8 +22,14 @@ open Model.MCode
 structure Alloc where
   colour : VReg → PReg
   alias : PReg → PReg → Bool
+  /-- the precoloured register names of the program (physical registers used directly) -/
+  fixed : List VReg
   removed : Nat → Bool
   live : Nat → List VReg
+
+def Alloc.isFixed (A : Alloc) (v : VReg) : Bool := A.fixed.contains v
+
+def Alloc.model (A : Alloc) : RegModel := { alias := A.alias, colour := A.colour, fixed := A.isFixed }
 
 /-- values live after instruction `i`: union of the live-in sets of its successors -/
 def liveOut (p : Program) (live : Nat → List VReg) (i : Nat) (ins : Instr) : List VReg :=
@@ -38,13 +44,13 @@ def liveOkB (p : Program) (live : Nat → List VReg) (i : Nat) (ins : Instr) : B
   ins.uses.all (fun u => (live i).contains u) &&
   (liveOut p live i ins).all (fun v => ins.defs.contains v || (live i).contains v)
 
-/-- a move has exactly one use, one def and no jump -/
+/-- a move has exactly one use, one def, no jump and no clobber -/
 def moveWfB (ins : Instr) : Bool :=
-  !ins.isMove || (ins.uses.length == 1 && ins.defs.length == 1 && ins.jumps.isEmpty)
+  !ins.isMove || (ins.uses.length == 1 && ins.defs.length == 1 && ins.jumps.isEmpty && ins.clobbers.isEmpty)
 
 /-- a deleted instruction must be a move between two values in the identical register -/
 def removedOkB (c : VReg → PReg) (ins : Instr) : Bool :=
-  ins.isMove && ins.jumps.isEmpty &&
+  ins.isMove &&
   (match ins.uses, ins.defs with
    | [s], [d] => c d == c s
    | _, _ => false)
@@ -53,43 +59,51 @@ def removedOkB (c : VReg → PReg) (ins : Instr) : Bool :=
 def exemptB (c : VReg → PReg) (ins : Instr) (d v : VReg) : Bool :=
   ins.isMove && ins.uses == [v] && c d == c v
 
-/-- no def overwrites (or havocs through an alias) another value that is live afterwards -/
-def defsOkB (c : VReg → PReg) (al : PReg → PReg → Bool) (ins : Instr) (lo : List VReg) : Bool :=
+/-- No def overwrites (or havocs through an alias) another value that is live afterwards.
+    Two *fixed* registers may overlap: that is a property of the input program and the
+    virtual machine havocs them in the same way (not for a deleted move, which does nothing). -/
+def defsOkB (A : Alloc) (rm : Bool) (ins : Instr) (lo : List VReg) : Bool :=
   lo.all (fun v => ins.defs.contains v ||
-    ins.defs.all (fun d => !ov al (c d) (c v) || exemptB c ins d v))
+    ins.defs.all (fun d => !ov A.alias (A.colour d) (A.colour v) || exemptB A.colour ins d v ||
+      (!rm && A.isFixed d && A.isFixed v)))
 
-/-- no clobbered physical register overlaps a value that is live across the instruction -/
-def clobOkB (c : VReg → PReg) (al : PReg → PReg → Bool) (ins : Instr) (lo : List VReg) : Bool :=
-  lo.all (fun v => ins.defs.contains v || ins.clobbers.all (fun q => !ov al q (c v)))
+/-- no clobbered physical register overlaps a virtual register's value that is live across -/
+def clobOkB (A : Alloc) (ins : Instr) (lo : List VReg) : Bool :=
+  lo.all (fun v => ins.defs.contains v || A.isFixed v || ins.clobbers.all (fun q => !ov A.alias q (A.colour v)))
 
 def instrOkB (p : Program) (A : Alloc) (i : Nat) (ins : Instr) : Bool :=
   liveOkB p A.live i ins && moveWfB ins &&
+  defsOkB A (A.removed i) ins (liveOut p A.live i ins) &&
   (if A.removed i then removedOkB A.colour ins
    else
-     defsOkB A.colour A.alias ins (liveOut p A.live i ins) &&
-     clobOkB A.colour A.alias ins (liveOut p A.live i ins) &&
+     clobOkB A ins (liveOut p A.live i ins) &&
      pairwiseB (fun a b => !ov A.alias (A.colour a) (A.colour b)) ins.defs)
 
 def checkFrom (p : Program) (A : Alloc) : Nat → List Instr → Bool
   | _, [] => true
   | i, ins :: rest => instrOkB p A i ins && checkFrom p A (i + 1) rest
 
-/-- values live on entry sit in pairwise non-overlapping registers -/
+/-- values live on entry sit in pairwise non-overlapping registers (fixed ones may overlap) -/
 def entryOkB (A : Alloc) : Bool :=
-  pairwiseB (fun a b => a == b || !ov A.alias (A.colour a) (A.colour b)) (A.live 0)
+  pairwiseB (fun a b => a == b || !ov A.alias (A.colour a) (A.colour b) || (A.isFixed a && A.isFixed b)) (A.live 0)
+
+/-- distinct fixed names are distinct physical registers -/
+def fixedOkB (A : Alloc) : Bool :=
+  pairwiseB (fun a b => A.colour a != A.colour b) A.fixed
 
 /-- THE validator -/
 def check (p : Program) (A : Alloc) : Bool :=
-  entryOkB A && checkFrom p A 0 p
+  fixedOkB A && entryOkB A && checkFrom p A 0 p
 
 /-! ## one spill rewrite -/
 
 /-- instruction list after a spill rewrite: ordinary instructions, and loads/stores of
-    the one stack slot that this rewrite introduced -/
+    the one stack slot that this rewrite introduced.  `clob` lists the fixed (physical)
+    registers the load/store code sequence overwrites as scratch (AVR: `Z`). -/
 inductive SInstr where
   | ins (i : Instr)
-  | load (f : VReg)
-  | store (f : VReg)
+  | load (f : VReg) (clob : List VReg)
+  | store (f : VReg) (clob : List VReg)
 deriving Repr, DecidableEq, Inhabited
 
 def SInstr.label : SInstr → Option Nat
@@ -97,6 +111,14 @@ def SInstr.label : SInstr → Option Nat
   | _ => none
 
 abbrev Ren := List (VReg × VReg)
+
+/-- what `rewrite_program` did to one instruction: the (temp, fresh) replacements in
+    processing order and the scratch registers of its load code / store code -/
+structure Plan where
+  ren : Ren
+  lclob : List VReg
+  sclob : List VReg
+deriving Repr, Inhabited
 
 def rename (ren : Ren) (v : VReg) : VReg :=
   match ren.lookup v with
@@ -115,10 +137,11 @@ def storesOf (ren : Ren) (ins : Instr) : List VReg :=
 /-- mirror of the body of `rewrite_program` for one instruction: for each (temp, fresh)
     pair in processing order, `replace_register`, a load directly before the instruction
     when it reads the fresh register, a store directly after it when it writes it -/
-def expand (ren : Ren) (ins : Instr) : List SInstr :=
-  (loadsOf ren ins).map .load ++ [.ins (renInstr ren ins)] ++ (storesOf ren ins).map .store
+def expand (pl : Plan) (ins : Instr) : List SInstr :=
+  (loadsOf pl.ren ins).map (fun f => .load f pl.lclob) ++ [.ins (renInstr pl.ren ins)] ++
+    (storesOf pl.ren ins).map (fun f => .store f pl.sclob)
 
-def expandAll (plan : Nat → Ren) : Nat → Program → List SInstr
+def expandAll (plan : Nat → Plan) : Nat → Program → List SInstr
   | _, [] => []
   | i, ins :: rest => expand (plan i) ins ++ expandAll plan (i + 1) rest
 
@@ -126,31 +149,50 @@ def expandAll (plan : Nat → Ren) : Nat → Program → List SInstr
 def spilledDefs (temps : List VReg) (ins : Instr) : List VReg :=
   ins.defs.filter (fun d => temps.contains d)
 
-def spillInstrOkB (p : Program) (temps fresh : List VReg) (live : Nat → List VReg)
-    (ren : Ren) (i : Nat) (ins : Instr) : Bool :=
+/-- writing the fixed register `z` disturbs `v`: the same name, or an overlapping fixed register -/
+def touches (M : RegModel) (z v : VReg) : Bool :=
+  z == v || (M.fixed z && M.fixed v && ov M.alias (M.colour z) (M.colour v))
+
+/-- parameters of one spill rewrite: the temps of the spilled node, the fresh registers
+    introduced, and the register model restricted to what exists before allocation
+    (colours of fixed registers, alias table) -/
+structure SpillCtx where
+  temps : List VReg
+  fresh : List VReg
+  model : RegModel
+
+def spillInstrOkB (p : Program) (C : SpillCtx) (live : Nat → List VReg)
+    (pl : Plan) (i : Nat) (ins : Instr) : Bool :=
   liveOkB p live i ins && moveWfB ins &&
   -- the renaming is about temps of the node, to registers declared fresh
-  ren.all (fun tf => temps.contains tf.1 && fresh.contains tf.2) &&
+  pl.ren.all (fun tf => C.temps.contains tf.1 && C.fresh.contains tf.2) &&
   -- every occurrence of a temp of the node is renamed, nothing fresh occurs before
-  (ins.uses ++ ins.defs).all (fun r => (!temps.contains r || (ren.lookup r).isSome) && !fresh.contains r) &&
+  (ins.uses ++ ins.defs).all (fun r => (!C.temps.contains r || (pl.ren.lookup r).isSome) && !C.fresh.contains r) &&
   -- a jump target gets no load in front of it
-  (ins.label.isNone || (loadsOf ren ins).isEmpty) &&
+  (ins.label.isNone || (loadsOf pl.ren ins).isEmpty) &&
+  -- scratch registers of the load code hold nothing that is live before the instruction,
+  -- those of the store code nothing that is live after it
+  ((loadsOf pl.ren ins).isEmpty ||
+    pl.lclob.all (fun z => C.model.fixed z && (live i).all (fun v => !touches C.model z v))) &&
+  ((storesOf pl.ren ins).isEmpty ||
+    pl.sclob.all (fun z => C.model.fixed z && (liveOut p live i ins).all (fun v => !touches C.model z v))) &&
   -- the node's temps share ONE slot: a def of one of them must not bury another live one
-  (match spilledDefs temps ins with
+  (match spilledDefs C.temps ins with
    | [] => true
-   | [d] => (liveOut p live i ins).all (fun t => !temps.contains t || t == d || (ins.isMove && ins.uses == [t]))
+   | [d] => (liveOut p live i ins).all (fun t => !C.temps.contains t || t == d || (ins.isMove && ins.uses == [t]))
    | _ => false)
 
-def spillFrom (p : Program) (temps fresh : List VReg) (live : Nat → List VReg) (plan : Nat → Ren) :
+def spillFrom (p : Program) (C : SpillCtx) (live : Nat → List VReg) (plan : Nat → Plan) :
     Nat → List Instr → Bool
   | _, [] => true
-  | i, ins :: rest => spillInstrOkB p temps fresh live (plan i) i ins && spillFrom p temps fresh live plan (i + 1) rest
+  | i, ins :: rest => spillInstrOkB p C live (plan i) i ins && spillFrom p C live plan (i + 1) rest
 
 /-- validator for one `rewrite_program(node)` call -/
-def checkSpillStep (pre : Program) (post : List SInstr) (temps fresh : List VReg)
-    (live : Nat → List VReg) (plan : Nat → Ren) : Bool :=
+def checkSpillStep (pre : Program) (post : List SInstr) (C : SpillCtx)
+    (live : Nat → List VReg) (plan : Nat → Plan) : Bool :=
   decide (post = expandAll plan 0 pre) &&
-  fresh.all (fun f => !temps.contains f) &&
-  spillFrom pre temps fresh live plan 0 pre
+  C.fresh.all (fun f => !C.temps.contains f && !C.model.fixed f) &&
+  C.temps.all (fun t => !C.model.fixed t) &&
+  spillFrom pre C live plan 0 pre
 
 end Model.RA
